@@ -168,8 +168,11 @@ PROVED = {
          "point followed by UnexpectedEof with the incomplete tag's start offset, the id iff the id bytes are complete, the size iff the header is "
          "complete and exactly the available payload bytes; never a corruption error; for every capacity and chunking (C04_refines). cut_doc is an "
          "executable function proved to produce a conforming truncated document whose encoding is exactly the prefix (C12_cut_doc_correct); the "
-         "truncated-document theorem holds for any declared sizes and at any reader state (C12_truncated_tag). PARTIAL only in that declared paths have "
-         "no global placeholders; the correspondence run cuts generated documents (with global elements) at every byte position.", ""),
+         "truncated-document theorem holds for any declared sizes and at any reader state (C12_truncated_tag). Two classes of documents are covered: "
+         "placeholder-free declared paths with any subset of unknown-size masters (above), and — C12_truncated_run_known_partial / "
+         "C12_every_cut_known_partial (Proofs/PartialKnown.v) — every master of known size with declared paths that may contain global placeholders "
+         "(global elements at any depth, recursive masters). Only unknown-size masters combined with global placeholders (inherently ambiguous) are "
+         "left to the correspondence run, which cuts generated documents with global elements at every byte position.", ""),
  "C14": ("Theorems (Proofs/Recover.v): C14_damaged_run_partial — for every strict configuration and every document with a run of junk inserted "
          "between two tags at any nesting depth (masters of known or unknown size), if the following tag still fits inside every enclosing known-size "
          "master after the shift and no header check passes at any junk position, then next() yields the tags before the junk unchanged, exactly one "
